@@ -21,6 +21,7 @@ import (
 	"go/token"
 	"go/types"
 	"math/big"
+	"sort"
 	"strings"
 
 	"golang.org/x/tools/go/ssa"
@@ -50,6 +51,7 @@ type pxEvent struct {
 	Call  *ssa.Call
 	Frame *pxFrame
 	Args  []*Term
+	Orig  []*Term // per argument: the recorded call it is the result of (or nil)
 	Env   Env
 	Pos   string
 	Extra string
@@ -80,6 +82,12 @@ type pxHooks struct {
 	// inline decides whether a static in-package callee is stepped into
 	// (nil: every package function with a body, depth < 4, not on the stack).
 	inline func(fr *pxFrame, callee *ssa.Function) bool
+	// havoc decides whether a loop is summarised instead of unrolled: its header
+	// φ-nodes become fresh symbols (bounded below by their initial value when they
+	// only count up), the body is explored once and back edges are dropped, so
+	// the exits are reached with facts that hold for ANY iteration.  Meant for
+	// search loops without events (nil: never).
+	havoc func(fr *pxFrame, lp *loopInfo) bool
 }
 
 type PX struct {
@@ -93,6 +101,9 @@ type PX struct {
 	maxPaths  int
 	maxSteps  int
 	seq       int
+	loops     map[*ssa.Function][]*loopInfo
+	havocked  map[string]*loopInfo // frame id + header index -> loop summarised on some path
+	modCache  map[*ssa.Function]map[string]bool
 }
 
 func (w *World) newPX(h pxHooks) *PX {
@@ -160,6 +171,11 @@ func (p *PX) term(v ssa.Value, fr *pxFrame, st *pxState) *Term {
 			nb := &Term{K: TConst, C: sum, T: b.T, key: sum.String()}
 			a, b = a.A, nb
 		}
+		// (y + c1) - c2 and (y - c1) + c2 with c1 == c2 is y (len(append(s, x)) - 1)
+		if (x.Op == token.SUB || x.Op == token.ADD) && b.K == TConst && a.K == TBin && a.B.K == TConst && a.B.C.Cmp(b.C) == 0 &&
+			((x.Op == token.SUB && a.Op == token.ADD) || (x.Op == token.ADD && a.Op == token.SUB)) && types.Identical(a.T, v.Type()) {
+			return a.A
+		}
 		t := &Term{K: TBin, Op: x.Op, A: a, B: b, T: v.Type(), key: "(" + a.key + " " + x.Op.String() + " " + b.key + ")"}
 		if a.K == TConst && b.K == TConst {
 			// fold: both operands are constants on this path
@@ -187,9 +203,16 @@ func (p *PX) term(v ssa.Value, fr *pxFrame, st *pxState) *Term {
 			z := &Term{K: TConst, C: new(big.Int), T: v.Type(), key: "0"}
 			return &Term{K: TBin, Op: token.SUB, A: z, B: a, T: v.Type(), key: "(0 - " + a.key + ")"}
 		case token.MUL:
+			// a load executed on this path was bound when it was executed
+			if t, ok := st.vals[p.reg(fr, v)]; ok {
+				return t
+			}
 			if fa, ok := x.X.(*ssa.FieldAddr); ok {
-				base := p.term(fa.X, fr, st)
-				return &Term{K: TLeaf, V: v, T: v.Type(), key: fmt.Sprintf("<fld:%s.%d>", strings.Trim(base.key, "<>"), fa.Field)}
+				key := p.fieldLoadKey(fa, fr, st)
+				if t, ok := st.vals["mem:"+key]; ok {
+					return t
+				}
+				return &Term{K: TLeaf, V: v, T: v.Type(), key: key}
 			}
 			if g, ok := x.X.(*ssa.Global); ok {
 				if c, ok := p.w.globalInit(g); ok {
@@ -211,8 +234,24 @@ func (p *PX) term(v ssa.Value, fr *pxFrame, st *pxState) *Term {
 						}
 					}
 				}
+				// element of another slice: the value last stored there on this path
+				at := p.term(ia, fr, st)
+				if t, ok := st.vals["mem:"+at.key]; ok {
+					return t
+				}
+				if !isByteSlice(ia.X.Type()) {
+					if _, isArr := isByteArrayPtr(ia.X.Type()); !isArr {
+						return &Term{K: TLeaf, V: v, T: v.Type(), key: "<ld:" + at.key + ">"}
+					}
+				}
 			}
 		}
+	case *ssa.Field:
+		a := p.term(x.X, fr, st)
+		return &Term{K: TLeaf, V: v, T: v.Type(), key: fmt.Sprintf("fld(%s,.%d)", a.key, x.Field)}
+	case *ssa.IndexAddr:
+		a, i := p.term(x.X, fr, st), p.term(x.Index, fr, st)
+		return &Term{K: TLeaf, V: v, T: v.Type(), key: "idx(" + a.key + "," + i.key + ")"}
 	case *ssa.Convert:
 		a := p.term(x.X, fr, st)
 		t := &Term{K: TConv, A: a, V: v, T: v.Type(), key: "conv:" + types.TypeString(v.Type(), nil) + "(" + a.key + ")"}
@@ -250,8 +289,25 @@ func (p *PX) term(v ssa.Value, fr *pxFrame, st *pxState) *Term {
 				n := big.NewInt(int64(len(bs.Oct)))
 				return &Term{K: TConst, C: n, T: v.Type(), key: n.String()}
 			}
+			if ms, ok := c.Args[0].(*ssa.MakeSlice); ok {
+				return p.term(ms.Len, fr, st)
+			}
 			a := p.term(c.Args[0], fr, st)
-			return &Term{K: TPure, Name: "len", Args: []*Term{a}, T: v.Type(), key: "len(" + a.key + ")"}
+			return p.lenTerm(a, v.Type())
+		}
+		if b, ok := c.Value.(*ssa.Builtin); ok && b.Name() == "append" && len(c.Args) == 2 && !isByteSlice(v.Type()) {
+			// append(s, k elements): its length is len(s)+k
+			if sl, ok := c.Args[1].(*ssa.Slice); ok && sl.Low == nil && sl.High == nil {
+				if al, ok := sl.X.(*ssa.Alloc); ok {
+					if pt, ok := al.Type().Underlying().(*types.Pointer); ok {
+						if at, ok := pt.Elem().Underlying().(*types.Array); ok {
+							a := p.term(c.Args[0], fr, st)
+							kk := big.NewInt(at.Len())
+							return &Term{K: TPure, Name: "append", Args: []*Term{a, {K: TConst, C: kk, T: types.Typ[types.Int], key: kk.String()}}, V: v, T: v.Type(), key: fmt.Sprintf("append(%s,%d)", a.key, at.Len())}
+						}
+					}
+				}
+			}
 		}
 		name := ""
 		if c.IsInvoke() {
@@ -281,7 +337,20 @@ func (p *PX) term(v ssa.Value, fr *pxFrame, st *pxState) *Term {
 		a := p.term(x.Tuple, fr, st)
 		return &Term{K: TLeaf, V: v, T: v.Type(), key: fmt.Sprintf("<x#%d%s>", x.Index, a.key)}
 	}
-	return &Term{K: TLeaf, V: v, T: v.Type(), key: "<" + p.reg(fr, v) + ">"}
+	return &Term{K: TLeaf, V: v, T: v.Type(), key: "<" + p.reg(fr, v) + p.iterTag(fr, v, st) + ">"}
+}
+
+// iterTag distinguishes the values a register takes in successive executions
+// of its block on one path (loop iterations): "" the first time, 'n after.
+func (p *PX) iterTag(fr *pxFrame, v ssa.Value, st *pxState) string {
+	in, ok := v.(ssa.Instruction)
+	if !ok || in.Block() == nil {
+		return ""
+	}
+	if n := st.visits[fmt.Sprintf("x:%s%d", fr.id, in.Block().Index)]; n > 1 {
+		return fmt.Sprintf("'%d", n)
+	}
+	return ""
 }
 
 // eval evaluates v on the current path.
@@ -325,7 +394,26 @@ func (p *PX) block(fr *pxFrame, b *ssa.BasicBlock, pred *ssa.BasicBlock, st *pxS
 		p.Truncated = true
 		return
 	}
+	bk := fmt.Sprintf("x:%s%d", fr.id, b.Index)
 	// φ-nodes: resolved by the edge taken (simultaneous assignment)
+	var phiVals []*Term
+	if pred != nil && st.visits[bk] >= 1 {
+		// the values flowing in are computed before the old facts are dropped
+		for i, q := range b.Preds {
+			if q == pred {
+				for _, in := range b.Instrs {
+					phi, ok := in.(*ssa.Phi)
+					if !ok {
+						break
+					}
+					phiVals = append(phiVals, p.term(phi.Edges[i], fr, st))
+				}
+				break
+			}
+		}
+		p.killBlockDefs(fr, b, st)
+	}
+	st.visits[bk]++
 	if pred != nil {
 		pi := -1
 		for i, q := range b.Preds {
@@ -342,7 +430,11 @@ func (p *PX) block(fr *pxFrame, b *ssa.BasicBlock, pred *ssa.BasicBlock, st *pxS
 			}
 			if pi >= 0 {
 				names = append(names, p.reg(fr, phi))
-				vals = append(vals, p.term(phi.Edges[pi], fr, st))
+				if len(phiVals) > len(vals) {
+					vals = append(vals, phiVals[len(vals)])
+				} else {
+					vals = append(vals, p.term(phi.Edges[pi], fr, st))
+				}
 				if bs := p.byteSeqOf(phi.Edges[pi], fr, st); bs != nil {
 					st.bseq[p.reg(fr, phi)] = bs
 				} else {
@@ -352,6 +444,19 @@ func (p *PX) block(fr *pxFrame, b *ssa.BasicBlock, pred *ssa.BasicBlock, st *pxS
 		}
 		for i, n := range names {
 			st.vals[n] = vals[i]
+		}
+	}
+	if p.hooks.havoc != nil && pred != nil {
+		for _, lp := range p.loopsOf(fr.fn) {
+			if lp.header == b && !lp.body[pred] && p.hooks.havoc(fr, lp) {
+				p.havocLoop(fr, lp, st)
+				if p.havocked == nil {
+					p.havocked = map[string]*loopInfo{}
+				}
+				hk := fmt.Sprintf("%s%d", fr.id, b.Index)
+				p.havocked[hk] = lp
+				st.visits["hv:"+hk] = 1
+			}
 		}
 	}
 	if p.hooks.onBlock != nil {
@@ -373,16 +478,39 @@ func (p *PX) instrs(fr *pxFrame, b *ssa.BasicBlock, from int, st *pxState, k pxC
 			stepIn = p.hooks.onInstr(fr, in, st)
 		}
 		switch x := in.(type) {
+		case *ssa.UnOp:
+			if x.Op == token.MUL {
+				// memory is read now, not when the register is used
+				delete(st.vals, p.reg(fr, x))
+				st.vals[p.reg(fr, x)] = p.term(x, fr, st)
+			}
 		case *ssa.Store:
 			// local variable cells and symbolic byte sequences
 			if al, ok := x.Addr.(*ssa.Alloc); ok {
 				st.vals[p.reg(fr, al)+"*"] = p.term(x.Val, fr, st)
+			}
+			if fa, ok := x.Addr.(*ssa.FieldAddr); ok {
+				vt := p.term(x.Val, fr, st)
+				p.bumpField(fieldID(fa), st)
+				if vt.K == TPure && vt.Name == "append" {
+					st.vals["mem:"+p.fieldLoadKey(fa, fr, st)] = vt
+				}
+				st.trace = append(st.trace, pxEvent{Kind: "fieldstore", Frame: fr, Args: []*Term{vt}, Env: st.env, Pos: p.w.instrPos(x), Extra: fieldID(fa)})
+			}
+			if ia, ok := x.Addr.(*ssa.IndexAddr); ok && !isByteSlice(ia.X.Type()) {
+				if _, isArr := isByteArrayPtr(ia.X.Type()); !isArr {
+					st.vals["mem:"+p.term(ia, fr, st).key] = p.term(x.Val, fr, st)
+				}
 			}
 			p.byteStore(x, fr, st)
 		case *ssa.Call:
 			p.byteCall(x, fr, st)
 			sc := x.Call.StaticCallee()
 			if sc == nil || !stepIn {
+				if sc != nil {
+					p.callEffects(sc, st)
+					p.recordCall(x, sc, fr, st)
+				}
 				continue
 			}
 			inl := p.defaultInline(fr, sc)
@@ -390,6 +518,8 @@ func (p *PX) instrs(fr *pxFrame, b *ssa.BasicBlock, from int, st *pxState, k pxC
 				inl = p.hooks.inline(fr, sc)
 			}
 			if !inl {
+				p.callEffects(sc, st)
+				p.recordCall(x, sc, fr, st)
 				continue
 			}
 			p.seq++
@@ -473,6 +603,11 @@ func (p *PX) instrs(fr *pxFrame, b *ssa.BasicBlock, from int, st *pxState, k pxC
 
 func (p *PX) enter(fr *pxFrame, from, to *ssa.BasicBlock, st *pxState, k pxCont, decided bool) {
 	key := fmt.Sprintf("%s%d", fr.id, to.Index)
+	if st.visits["hv:"+key] > 0 {
+		if lp := p.havocked[key]; lp != nil && lp.body[from] {
+			return // summarised loop: the single symbolic iteration stands for all of them
+		}
+	}
 	if !decided {
 		st.visits[key]++
 		if st.visits[key] > 2 {
@@ -485,4 +620,199 @@ func (p *PX) enter(fr *pxFrame, from, to *ssa.BasicBlock, st *pxState, k pxCont,
 		}
 	}
 	p.block(fr, to, from, st, k)
+}
+
+// lenTerm: len(a); the length of append(s, k elements) is len(s)+k.
+func (p *PX) lenTerm(a *Term, t types.Type) *Term {
+	if a.K == TPure && a.Name == "append" && len(a.Args) == 2 && a.Args[1].K == TConst {
+		inner := p.lenTerm(a.Args[0], t)
+		k := a.Args[1]
+		return &Term{K: TBin, Op: token.ADD, A: inner, B: &Term{K: TConst, C: k.C, T: t, key: k.key}, T: t, key: "(" + inner.key + " + " + k.key + ")"}
+	}
+	return &Term{K: TPure, Name: "len", Args: []*Term{a}, T: t, key: "len(" + a.key + ")"}
+}
+
+// fieldID names a struct field independently of the base pointer.
+func fieldID(fa *ssa.FieldAddr) string {
+	t := fa.X.Type()
+	if pt, ok := t.Underlying().(*types.Pointer); ok {
+		t = pt.Elem()
+	}
+	return fmt.Sprintf("%s.%d", types.TypeString(t, nil), fa.Field)
+}
+
+// fieldLoadKey: the key of a load of field fa on this path; stores to the
+// field (direct, or by a callee that is not stepped into) advance its version.
+func (p *PX) fieldLoadKey(fa *ssa.FieldAddr, fr *pxFrame, st *pxState) string {
+	base := p.term(fa.X, fr, st)
+	key := fmt.Sprintf("<fld:%s.%d", strings.Trim(base.key, "<>"), fa.Field)
+	if v, ok := st.vals["ver:"+fieldID(fa)]; ok && v.K == TConst && v.C.Sign() != 0 {
+		key += "@" + v.C.String()
+	}
+	return key + ">"
+}
+
+func (p *PX) bumpField(id string, st *pxState) {
+	p.seq++
+	c := big.NewInt(int64(p.seq))
+	st.vals["ver:"+id] = &Term{K: TConst, C: c, T: types.Typ[types.Int], key: c.String()}
+}
+
+// modFields: the struct fields fn (or anything it can call in the package)
+// may store to.
+func (p *PX) modFields(fn *ssa.Function) map[string]bool {
+	if p.modCache == nil {
+		p.modCache = map[*ssa.Function]map[string]bool{}
+	}
+	if m, ok := p.modCache[fn]; ok {
+		return m
+	}
+	m := map[string]bool{}
+	p.modCache[fn] = m
+	for g := range p.w.reachPkg(fn) {
+		for _, b := range g.Blocks {
+			for _, in := range b.Instrs {
+				if s, ok := in.(*ssa.Store); ok {
+					if fa, ok := s.Addr.(*ssa.FieldAddr); ok {
+						m[fieldID(fa)] = true
+					}
+				}
+			}
+		}
+	}
+	return m
+}
+
+func (p *PX) loopsOf(fn *ssa.Function) []*loopInfo {
+	if p.loops == nil {
+		p.loops = map[*ssa.Function][]*loopInfo{}
+	}
+	if l, ok := p.loops[fn]; ok {
+		return l
+	}
+	l := naturalLoops(fn)
+	p.loops[fn] = l
+	return l
+}
+
+// killBlockDefs forgets what the path knew about the registers block b defines
+// (b is executed again: the old facts describe the previous iteration).
+func (p *PX) killBlockDefs(fr *pxFrame, b *ssa.BasicBlock, st *pxState) {
+	var marks []string
+	for _, in := range b.Instrs {
+		if v, ok := in.(ssa.Value); ok {
+			reg := p.reg(fr, v)
+			marks = append(marks, "<"+reg+">")
+			if _, isPhi := in.(*ssa.Phi); !isPhi {
+				delete(st.vals, reg)
+				for i := 0; i < 4; i++ {
+					delete(st.vals, fmt.Sprintf("%s#%d", reg, i))
+				}
+			}
+		}
+	}
+	if len(marks) == 0 {
+		return
+	}
+	for k := range st.env {
+		for _, m := range marks {
+			if strings.Contains(k, m) {
+				delete(st.env, k)
+				break
+			}
+		}
+	}
+}
+
+// havocLoop turns the φ-nodes of the header into fresh symbols and forgets the
+// cells the body assigns.
+func (p *PX) havocLoop(fr *pxFrame, lp *loopInfo, st *pxState) {
+	p.seq++
+	for _, in := range lp.header.Instrs {
+		phi, ok := in.(*ssa.Phi)
+		if !ok {
+			break
+		}
+		reg := p.reg(fr, phi)
+		init := st.vals[reg]
+		fresh := &Term{K: TLeaf, V: phi, T: phi.Type(), key: fmt.Sprintf("<hv%d:%s>", p.seq, reg)}
+		// a counter that only moves one way keeps its initial value as a bound, and
+		// is assumed not to wrap around (it stops one step before the end of its type)
+		if step, isCounter := counterStep(phi); isCounter && init != nil {
+			if is, _ := p.f.Eval(init, st.env); is != nil && !is.Empty() {
+				if top, ok := typeRange(p.w, phi.Type()); ok {
+					if step > 0 {
+						st.env[fresh.key] = top.Intersect(ISet{{is.Min(), new(big.Int).Sub(top.Max(), big.NewInt(step))}})
+					} else {
+						st.env[fresh.key] = top.Intersect(ISet{{new(big.Int).Sub(top.Min(), big.NewInt(step)), is.Max()}})
+					}
+				}
+			}
+		}
+		st.vals[reg] = fresh
+		delete(st.bseq, reg)
+	}
+	for b := range lp.body {
+		for _, in := range b.Instrs {
+			switch x := in.(type) {
+			case *ssa.Store:
+				if al, ok := x.Addr.(*ssa.Alloc); ok {
+					delete(st.vals, p.reg(fr, al)+"*")
+					delete(st.bseq, p.reg(fr, al)+"*")
+				}
+				if fa, ok := x.Addr.(*ssa.FieldAddr); ok {
+					p.bumpField(fieldID(fa), st)
+				}
+			}
+		}
+	}
+}
+
+// callEffects: a package function that is not stepped into may store to
+// struct fields; loads after the call see a new version of those fields.
+func (p *PX) callEffects(sc *ssa.Function, st *pxState) {
+	if !p.w.inPkg(sc) || sc.Blocks == nil {
+		return
+	}
+	var ids []string
+	for id := range p.modFields(sc) {
+		ids = append(ids, id)
+	}
+	sort.Strings(ids)
+	for _, id := range ids {
+		p.bumpField(id, st)
+	}
+}
+
+// recordCall remembers callee and argument terms of a call that is not
+// stepped into ("call:"+register), so that a rule can see where a value that
+// reaches an event came from.
+func (p *PX) recordCall(x *ssa.Call, sc *ssa.Function, fr *pxFrame, st *pxState) {
+	var args []*Term
+	var keys []string
+	for _, a := range x.Call.Args {
+		t := p.term(a, fr, st)
+		args = append(args, t)
+		keys = append(keys, t.key)
+	}
+	name := qualifiedFnName(sc)
+	st.vals["call:"+p.reg(fr, x)+p.iterTag(fr, x, st)] = &Term{K: TPure, Name: name, Args: args, V: x, T: x.Type(), key: "call:" + name + "(" + strings.Join(keys, ",") + ")"}
+}
+
+// originOf: the recorded call a leaf term (a call result or one component of
+// it) stands for, or nil.
+func (st *pxState) originOf(t *Term) *Term {
+	if t == nil || t.K != TLeaf {
+		return nil
+	}
+	k := t.key
+	if strings.HasPrefix(k, "<x#") {
+		if i := strings.Index(k[1:], "<"); i >= 0 {
+			k = k[1+i : len(k)-1]
+		}
+	}
+	if len(k) < 2 || k[0] != '<' {
+		return nil
+	}
+	return st.vals["call:"+k[1:len(k)-1]]
 }
